@@ -310,6 +310,13 @@ class Interp:
             return a[1] == b[1]
         if (a[0] == "ext" and not a[2] and b[0] == "cls") or (b[0] == "ext" and not b[2] and a[0] == "cls"):
             return False
+        if a[0] == "fn" and b[0] == "fn" and a[1].startswith(".") and b[1].startswith(".") and a[2] == b[2] and len(a[2]) == 1 and a[2][0][0] == "ext" and not a[2][0][2]:
+            # two attribute reads of the same external class / module: the same name is the same value; two different
+            # upper-case names are two different named constants (EVENT_WRITE / EVENT_READ)
+            if a[1] == b[1]:
+                return True
+            if a[1][1:].isupper() and b[1][1:].isupper():
+                return False
         return self.free("eq(%s)" % text)
 
     # ------------------------------------------------------------------ running functions
@@ -474,6 +481,8 @@ class Interp:
                         b[1].removed.add(k[1])
                     elif b[0] == "dict" and k[0] == "c":
                         b[1].pop(k[1], None)
+                    elif b[0] == "dict" and _dyn_find(b[1], self.expr(t.slice, env, depth)) is not None:
+                        del b[1][_dyn_find(b[1], self.expr(t.slice, env, depth))]
                     elif b[0] == "list" and k[0] == "c" and isinstance(k[1], int) and not (len(b) > 2 and b[2]) and -len(b[1]) <= k[1] < len(b[1]):
                         del b[1][k[1]]
                     elif b[0] == "list":
@@ -627,7 +636,14 @@ class Interp:
                 if kc is not None and _hashable(kc[1]):
                     b[1][kc[1]] = v
                 else:
-                    b[1][("dyn", len(b[1]))] = ("list", [k, v])
+                    dk = _dyn_find(b[1], k)
+                    if dk is not None:
+                        b[1][dk] = ("list", [k, v])
+                    else:
+                        n_ = len(b[1])
+                        while ("dyn", n_) in b[1]:
+                            n_ += 1
+                        b[1][("dyn", n_)] = ("list", [k, v])
             elif b[0] == "list":
                 if kc is not None and isinstance(kc[1], int) and -len(b[1]) <= kc[1] < len(b[1]):
                     b[1][kc[1]] = v
@@ -669,7 +685,9 @@ class Interp:
         elif b[0] == "cls":
             self.class_attrs[(b[1].qname, name)] = v
             return
-        # stores on opaque values are ignored
+        elif b[0] in ("ext", "fn"):
+            # a store on an opaque object: recorded (a config object that is filled in and then written)
+            self.emit("SETATTR", b, name, v)
 
     @staticmethod
     def _mangle(owner, name):
@@ -890,6 +908,29 @@ class Interp:
             left = right
         return ("c", bool(res))
 
+    def dict_lookup(self, d, opened, key):
+        """-> ('found', dict key) | ('absent', None) | ('unknown', None) for an abstract dict and an abstract key"""
+        dk = _dyn_find(d, key)
+        if dk is not None:
+            return "found", dk
+        has_dyn = any(isinstance(x, tuple) and x and x[0] == "dyn" for x in d)
+        if not d and not opened:
+            return "absent", None          # nothing stored: no need to look at the key at all
+        if key[0] == "atom":
+            for kx in d:
+                if not (isinstance(kx, tuple) and kx and kx[0] == "dyn"):
+                    self.note_const(key[1], kx)
+        kc = self.concrete(key) if key[0] == "atom" else key
+        if kc[0] == "c" and _hashable(kc[1]):
+            if kc[1] in d and not (isinstance(kc[1], tuple) and kc[1] and kc[1][0] == "dyn"):
+                return "found", kc[1]
+            return ("absent", None) if not has_dyn and not opened else ("unknown", None)
+        if kc[0] == "other":
+            return ("absent", None) if not has_dyn and not opened else ("unknown", None)
+        if not d and not opened:
+            return "absent", None
+        return "unknown", None
+
     def contains(self, container, item, text):
         if container[0] == "c" and isinstance(container[1], (tuple, list, str, dict, set, frozenset)):
             elems = [("c", x) for x in container[1]] if not isinstance(container[1], str) else None
@@ -908,6 +949,8 @@ class Interp:
         if container[0] == "dict" and not (len(container) > 2 and container[2]):
             if not container[1]:
                 return False
+            if _dyn_find(container[1], item) is not None:
+                return True
             if item[0] == "atom":
                 for kx in container[1]:
                     if not (isinstance(kx, tuple) and kx and kx[0] == "dyn"):
@@ -950,6 +993,9 @@ class Interp:
         if b[0] == "dict":
             if kc[0] == "c" and _hashable(kc[1]) and kc[1] in b[1]:
                 return b[1][kc[1]]
+            dk = _dyn_find(b[1], k)
+            if dk is not None:
+                return b[1][dk][1][1]
             return ("fn", "item", [b, k])
         if b[0] == "c" and k[0] == "c":
             try:
@@ -1140,6 +1186,8 @@ class Interp:
             owner = env.get("@owner")
             name2 = self._mangle(owner, name)
             if name2 in o.fields:
+                if "@trace_reads" in o.fields:
+                    self.emit("GETATTR", b, name)       # a rule wants to see WHEN this object's state is looked at
                 return o.fields[name2]
             if name == "__class__":
                 return ("cls", o.cls)
@@ -1236,6 +1284,10 @@ class Interp:
             return self.class_const_value(kc, c, kc.consts[ce.id])
         if isinstance(ce, ast.Name) and ce.id in kc.methods:
             return ("clsmethod", kc, ce.id)         # a function of the class body used as a value (dispatch tables)
+        if isinstance(ce, (ast.Name, ast.Attribute)):
+            cc = self.repo.resolve_expr_class(kc.module, ce)
+            if cc is not None:
+                return ("cls", cc)
         if isinstance(ce, ast.Dict) and all(k is not None for k in ce.keys):
             out = {}
             for k_, v_ in zip(ce.keys, ce.values):
@@ -1246,6 +1298,18 @@ class Interp:
             return ("dict", out)
         if isinstance(ce, ast.Lambda):
             return ("closure", ce, {"@owner": kc, "@module": kc.module}, kc, None)
+        if isinstance(ce, ast.Call) and unparse(ce.func) in ("itertools.count", "count") and not ce.keywords and len(ce.args) <= 2:
+            # a process-wide sequence created once in the class body: one shared counter object, advanced by next()
+            key = (kc.qname, "@count", id(ce))
+            if key not in self.class_attrs:
+                av = [const_alts(Evaluator(self.repo, kc.module, c, class_scope=kc).ev(a)) for a in ce.args]
+                if all(a is not None and len(a) == 1 and isinstance(a[0], int) for a in av):
+                    o = Obj(None)
+                    o.fields["@counter"] = av[0][0] if av else 0
+                    o.fields["@step"] = av[1][0] if len(av) > 1 else 1
+                    self.class_attrs[key] = ("obj", o)
+            if key in self.class_attrs:
+                return self.class_attrs[key]
         return ("fn", "const", [])
 
     # ------------------------------------------------------------------ calls
@@ -1407,6 +1471,10 @@ class Interp:
                     return ("list", [("c", i) for i in r])
             except Exception:
                 pass
+        if name == "next" and a0 is not None and a0[0] == "obj" and "@counter" in a0[1].fields:
+            v = a0[1].fields["@counter"]
+            a0[1].fields["@counter"] = v + a0[1].fields["@step"]
+            return ("c", v)
         if name == "enumerate" and a0 is not None:
             items = self.iterate(a0)
             start = args[1] if len(args) > 1 else kwargs.get("start", ("c", 0))
@@ -1455,6 +1523,12 @@ class Interp:
             return self.construct(fv[1], args, kwargs, env, depth, e)
         if k in ("ext", "fn"):
             label = fv[1]
+            h = self.hooks.get("extcall")
+            if h is not None:
+                # a rule observes calls of external callables (constructors of library classes) with their keywords
+                r = h(self, label, args, kwargs, env, depth, e)
+                if r is not None:
+                    return r
             deps = list(args) + list(kwargs.values()) + (list(fv[2]) if k == "fn" else [])
             return ("ext", label + "()", deps)
         return ("fn", "call", [fv] + list(args))
@@ -1522,18 +1596,33 @@ class Interp:
                 return ("list", ks, True) if (opened or dyn) else ("list", ks)
             if name == "values":
                 return ("list", list(d.values()), True) if opened else ("list", list(d.values()))
-            if name == "get" and args:
-                kc = self.concrete(args[0]) if args[0][0] == "atom" else args[0]
-                if kc[0] == "c" and _hashable(kc[1]) and kc[1] in d:
-                    return d[kc[1]]
-                if opened:
+            if name in ("get", "setdefault", "pop") and args:
+                st, dk = self.dict_lookup(d, opened, args[0])
+                dflt = args[1] if len(args) > 1 else C_NONE
+                if st == "found":
+                    v_ = d[dk][1][1] if isinstance(dk, tuple) and dk and dk[0] == "dyn" else d[dk]
+                    if name == "pop":
+                        del d[dk]
+                    return v_
+                if st == "absent":
+                    if name == "pop" and len(args) < 2:
+                        raise _Raise(("ext", "KeyError", []), "KeyError: %s" % show(args[0])[:40])
+                    if name == "setdefault":
+                        kc = self.concrete(args[0]) if args[0][0] == "atom" else args[0]
+                        if kc[0] == "c" and _hashable(kc[1]):
+                            d[kc[1]] = dflt
+                        else:
+                            n_ = len(d)
+                            while ("dyn", n_) in d:
+                                n_ += 1
+                            d[("dyn", n_)] = ("list", [args[0], dflt])
+                    return dflt
+                if name == "get" and opened:
                     return ("fn", "get", [recv] + list(args))
-                return args[1] if len(args) > 1 else C_NONE
+                return ("fn", "dict." + name, [recv] + list(args))
             if name == "update" and args and args[0][0] == "dict":
                 d.update(args[0][1])
                 return C_NONE
-            if name in ("pop",) and args and args[0][0] == "c" and _hashable(args[0][1]):
-                return d.pop(args[0][1], args[1] if len(args) > 1 else C_NONE)
             if name == "copy":
                 return ("dict", dict(d))
             return ("fn", "dict." + name, [recv] + list(args))
@@ -1592,6 +1681,17 @@ class Interp:
                 if r is not None:
                     return r
         return ("fn", name, [recv] + list(args) + list(kwargs.values()))
+
+
+def _dyn_find(d, k):
+    """key of the dynamic entry of abstract dict `d` that was stored under the very same abstract key value `k`
+    (an input atom, a tuple of atoms, an opaque value): the same symbolic key names the same entry"""
+    if k is None or k[0] == "c":
+        return None
+    for dk, dv in d.items():
+        if isinstance(dk, tuple) and dk and dk[0] == "dyn" and dv[0] == "list" and len(dv[1]) == 2 and dv[1][0] == k:
+            return dk
+    return None
 
 
 def _load(t):
